@@ -38,6 +38,11 @@ API
                                of the PRNG must be modelled, not ignored)
   patched_random(fake)         context manager: installs `fake` as
                                tdda.rexpy.rexpy.random, restores on exit
+  real_random(key)             context manager for the layers that run on the
+                               REAL random module: global generator set to
+                               random.Random(key).getstate(), restored on exit
+  set_real_state(key)          ditto, without the bracket (inside real_random)
+  real_state_token()           short hash of the global generator state
   reset_rexpy_state()          clears tdda.rexpy.rexpy.memo and nCalls (the
                                only module-level state a later call can see)
   make_size(setting)           tdda Size(**setting) (None -> None)
@@ -161,6 +166,34 @@ def patched_random(fake):
         yield fake
     finally:
         rx.random = saved
+
+
+@contextlib.contextmanager
+def real_random(key):
+    """The REAL random module stays in place (no seam): the process-wide
+    generator is put into the state of random.Random(key) - a fixed,
+    reproducible pre-state - and the state found on entry is put back on exit
+    (harness hygiene: later cases must not depend on this one)."""
+    import random
+    saved = random.getstate()
+    set_real_state(key)
+    try:
+        yield random
+    finally:
+        random.setstate(saved)
+
+
+def set_real_state(key):
+    import random
+    random.setstate(random.Random(key).getstate())
+
+
+def real_state_token():
+    """Short hash of the process-wide generator's state."""
+    import hashlib
+    import random
+    return hashlib.sha1(repr(random.getstate()).encode('ascii')
+                        ).hexdigest()[:12]
 
 
 def reset_rexpy_state():
